@@ -195,6 +195,8 @@ def run_unit(snapshot, unit_name, workdir, tier="quick", do_canary=True):
             f["props"] = unit.get("props", [])
     res["rules"] = rules
     res["fns"] = fns
+    # functions whose ghost-hint anchors were lost (their failures need a witness to count as violations)
+    res["anchors_lost"] = sorted(set(r["site"].split("::")[-1] for r in rules if r.get("anchor_lost")))
     os.makedirs(workdir, exist_ok=True)
     path = os.path.join(workdir, unit_name + ".rs")
     open(path, "w").write(text)
